@@ -99,3 +99,63 @@ def check(rep, tier):
         ctx = dict(m["ctx"])
         explore.explore_and_replay(rep, "repro-" + m["name"], m["module"], m["cfg"], ("harness.repro_check", "replay_chunk"), ctx,
                                    {"reproducible"}, m["invariants"], m["properties"], chunk=200)
+
+
+def tabular(rep, tier):
+    """the tabular environment (windowed State): an episode after earlier completed / abandoned episodes, also on another fold,
+    is bit-identical to the same episode on a freshly built environment"""
+    from . import impl, tabular_check as tc
+    nd = 47
+    bd = [d for d in range(1, nd + 1) if (d - 1) % 7 < 5]
+    n = 0
+    for w, s in ((1, 0), (3, 0), (4, 2)):
+        for tr in (None, "z-score"):
+            p = {"dx": set(bd), "dy": set(bd), "w": w, "s": s, "start": 0, "end": 0, "fold": (30, 47)}
+            for prefix in (("training-set", 3), ("test-set", 2), ("training-set", 99)):
+                for target in ("training-set", "test-set"):
+                    o1, env = impl.classify(lambda: tc.build(p, tr))
+                    o2, ref = impl.classify(lambda: tc.build(p, tr))
+                    n += 1
+                    case = {"kind": "tabular-repro", "window": w, "stride": s, "transformer": tr, "prefix": list(prefix), "fold": target}
+                    if o1 != "ok" or o2 != "ok":
+                        rep.violation("reproducible", "reproducible/tabular/construct", "TradingEnvXY could not be built: %r" % (env,), case)
+                        continue
+                    # an earlier episode, abandoned after k steps (k = 99: run to the end)
+                    r, obs = impl.classify(lambda: env.reset(prefix[0]))
+                    k = 0
+                    while r == "ok" and k < prefix[1]:
+                        r, val = impl.classify(lambda: env.step(np.array([0.5, -0.25])))
+                        k += 1
+                        if r == "ok" and val[2]:
+                            break
+                    a = _tab_episode(env, target)
+                    b = _tab_episode(ref, target)
+                    if a != b:
+                        i = next((j for j, (x, y) in enumerate(zip(a, b)) if x != y), min(len(a), len(b)))
+                        rep.violation("reproducible", "reproducible/tabular/w%d" % w,
+                                      "tabular environment (window %d, stride %s): after an earlier episode on %s (%s steps) the episode on %s "
+                                      "differs from a freshly built environment at call %d: %r vs %r" % (
+                                          w, s or None, prefix[0], prefix[1], target, i, a[i] if i < len(a) else None, b[i] if i < len(b) else None), case)
+    rep.traces += n
+    rep.evaluations += 2 * n
+    rep.count("tabular_reproducibility_pairs", n)
+
+
+def _tab_episode(env, fold):
+    from . import impl
+    out = []
+    r, obs = impl.classify(lambda: env.reset(fold))
+    if r != "ok":
+        return [("reset", r, type(obs).__name__)]
+    out.append(("reset", np.asarray(obs, dtype=float).tobytes().hex()))
+    for k in range(6):
+        a = np.array([0.5, -0.25]) if k % 2 == 0 else np.array([-0.25, 0.75])
+        r, val = impl.classify(lambda: env.step(a))
+        if r != "ok":
+            out.append(("step", r, type(val).__name__))
+            break
+        out.append(("step", np.asarray(val[0], dtype=float).tobytes().hex(), hx(val[1]), bool(val[2]),
+                    sorted((c.symbol, hx(q)) for c, q in env.broker.holdings_quantity.items())))
+        if val[2]:
+            break
+    return out
